@@ -57,6 +57,23 @@ func init() {
 		*cell = &native{strings.NewReplacer("&", "&amp;", "<", "&lt;", ">", "&gt;", `"`, "&#34;", "'", "&#39;")}
 		return cell
 	}
+	ipv := func(bs ...byte) globalInit {
+		return func(i *Interp, g *ssa.Global) value {
+			out := make([]value, len(bs))
+			for k, b := range bs {
+				out[k] = int64(b)
+			}
+			return out
+		}
+	}
+	v4 := func(a, b, c, d byte) globalInit { return ipv(0, 0, 0, 0, 0, 0, 0, 0, 0, 0, 0xff, 0xff, a, b, c, d) }
+	r["net.IPv4zero"] = v4(0, 0, 0, 0)
+	r["net.IPv4bcast"] = v4(255, 255, 255, 255)
+	r["net.IPv4allsys"] = v4(224, 0, 0, 1)
+	r["net.IPv4allrouter"] = v4(224, 0, 0, 2)
+	r["net.IPv6zero"] = ipv(0, 0, 0, 0, 0, 0, 0, 0, 0, 0, 0, 0, 0, 0, 0, 0)
+	r["net.IPv6unspecified"] = ipv(0, 0, 0, 0, 0, 0, 0, 0, 0, 0, 0, 0, 0, 0, 0, 0)
+	r["net.IPv6loopback"] = ipv(0, 0, 0, 0, 0, 0, 0, 0, 0, 0, 0, 0, 0, 0, 0, 1)
 	r["math/bits.deBruijn64tab"] = nil // interpreted lazily below (array literal)
 }
 
